@@ -1,6 +1,6 @@
 (** C04 - count_primes equals pi(stop) - pi(start - 1) exactly. *)
 From Coq Require Import NArith List Bool.
-From PS Require Import Spec.Primes Model.Tiling Proofs.TilingP Proofs.PrimeGenP Proofs.CountAddP.
+From PS Require Import Spec.Primes Model.Tiling Model.Config Model.EratGeom Proofs.TilingP Proofs.PrimeGenP Proofs.CountAddP Proofs.EratGeomP.
 Import ListNotations.
 Local Open Scope N_scope.
 
@@ -22,3 +22,23 @@ Theorem C04_tiling_counts : forall td start stop,
   concat (map (fun p => primes_between (fst p) (snd p)) (pieces td start stop)) = primes_between start stop.
 Proof. exact tiling_counts. Qed.
 Print Assumptions C04_tiling_counts.
+
+(** the kernel's surroundings: for every L1 size, sieve-size setting and interval, the segments Erat sieves
+    are well formed: bases = 0 (mod 30) and adjacent, every full segment has segmentHigh = base + 30*bytes + 6
+    < stop (all its numbers are <= segmentHigh), the last segment's size is computed without underflow and ends
+    in the byte of stop, the first segment contains start in its first byte; and the loop terminates *)
+Theorem C04_segments_ok : forall l1 maxKB start stop fuel l,
+  16 <= maxKB -> maxKB <= 8192 -> 7 <= start -> start <= stop -> stop <= MAX64 ->
+  segments fuel l1 maxKB start stop = Some l ->
+  l <> [] /\ Forall (seg_ok stop) l /\ adjacent l /\
+  let low0 := s_low (hd {| s_low := 0; s_high := 0; s_bytes := 0; s_last := false |} l) in
+  low0 mod 30 = 0 /\ low0 + 7 <= start /\ start <= low0 + 36.
+Proof. exact segments_ok. Qed.
+Print Assumptions C04_segments_ok.
+
+Theorem C04_segments_terminate : forall stop, stop <= MAX64 -> forall fuel low high size,
+  geom_inv stop low high size ->
+  (N.to_nat ((stop - low) / (30 * size)) + 2 <= fuel)%nat ->
+  segments_loop fuel stop low high size <> None.
+Proof. exact segments_loop_total. Qed.
+Print Assumptions C04_segments_terminate.
